@@ -12,6 +12,7 @@ import (
 	"hash/fnv"
 	"io/fs"
 	"os"
+	"os/signal"
 	"path/filepath"
 	"sort"
 	"strconv"
@@ -65,9 +66,12 @@ func (area) Run(line string) string {
 	base := filepath.Base(t)
 	subst := func(s string) string { return strings.ReplaceAll(s, placeholder, base) }
 	var entries []entry
+	limit := -1
 	for _, w := range f[2:] {
 		p := strings.Split(w, ":")
 		switch {
+		case p[0] == "w" && len(p) == 2:
+			limit = hx.Atoi(p[1])
 		case p[0] == "i" && p[1] == "d" && len(p) == 4:
 			path := filepath.Join(t, string(hx.UnHex(p[2])))
 			must(os.Mkdir(path, 0o700))
@@ -94,13 +98,17 @@ func (area) Run(line string) string {
 		if bad {
 			return "bad-op"
 		}
+		restore := writeLimit(limit)
 		xerr = xzip.ExtractWithMask(zr, dst, os.FileMode(mask))
+		restore()
 	} else {
 		tr, bad := buildTar(entries)
 		if bad {
 			return "bad-op"
 		}
+		restore := writeLimit(limit)
 		xerr = xtar.ExtractWithMask(tr, dst, os.FileMode(mask))
+		restore()
 	}
 	res := "ok"
 	if xerr != nil {
@@ -117,6 +125,18 @@ func (area) Run(line string) string {
 		}
 	}
 	return res
+}
+
+// writeLimit makes every write beyond `limit` bytes of a file fail (RLIMIT_FSIZE: the kernel writes up to the limit and
+// then reports EFBIG) for the duration of the extraction: the fault "an entry cannot be written in full".
+func writeLimit(limit int) func() {
+	if limit < 0 {
+		return func() {}
+	}
+	var old syscall.Rlimit
+	must(syscall.Getrlimit(syscall.RLIMIT_FSIZE, &old))
+	must(syscall.Setrlimit(syscall.RLIMIT_FSIZE, &syscall.Rlimit{Cur: uint64(limit), Max: old.Max}))
+	return func() { must(syscall.Setrlimit(syscall.RLIMIT_FSIZE, &old)) }
 }
 
 func modeOf(m int) os.FileMode {
@@ -330,5 +350,6 @@ func dump(t, base string) string {
 
 func main() {
 	syscall.Umask(0)
+	signal.Ignore(syscall.SIGXFSZ) // a write beyond RLIMIT_FSIZE must fail with EFBIG instead of killing the harness
 	hx.Main(map[string]hx.Area{"extract": area{}})
 }
